@@ -158,7 +158,8 @@ Inductive check :=
 | KNumInt64Use (p : path)                         (* int64(x) then a use that panics on negative values *)
 | KAlwaysErr
 | KMayStop
-| KDeep.
+| KDeep
+| KDone.                                          (* nothing after this point can fail: the handler returns success *)
 
 (* read field p of the request; a nil request is a nil-pointer dereference *)
 Definition rd (req : fval) (p : path) (k : fval -> res unit) : res unit :=
@@ -302,14 +303,14 @@ Definition exec (n : Z) (c : check) (req : fval) : res unit :=
   | KNumInt64Use p =>
       rd req p (fun v => match v with VNum z => if z <=? INT64_MAX then Ok tt else Panic | _ => bad end)
   | KAlwaysErr => Err E_HEAD
-  | KMayStop | KDeep => Ok tt
+  | KMayStop | KDeep | KDone => Ok tt
   end.
 
 (* run a head; [o] says, for each KMayStop reached, whether the handler continues *)
 Fixpoint run (n : Z) (o : list bool) (cs : list check) (req : fval) : res unit :=
   match cs with
   | [] => Ok tt
-  | KDeep :: _ => Ok tt
+  | KDeep :: _ | KDone :: _ => Ok tt
   | KMayStop :: tl =>
       match o with
       | true :: o' => run n o' tl req
@@ -322,8 +323,17 @@ Fixpoint run (n : Z) (o : list bool) (cs : list check) (req : fval) : res unit :
    KMayStop / KDeep.  Ok tt = "not rejected by the static part". *)
 Fixpoint run_static (n : Z) (cs : list check) (req : fval) : res unit :=
   match cs with
-  | [] | KDeep :: _ | KMayStop :: _ => Ok tt
+  | [] | KDeep :: _ | KMayStop :: _ | KDone :: _ => Ok tt
   | c :: tl => match exec n c req with Ok _ => run_static n tl req | Err e => Err e | Panic => Panic end
+  end.
+
+(* the request passes every check of a head that ends in KDone without a state-dependent branch
+   before it: the handler accepts (acceptance itself is then compared with the implementation) *)
+Fixpoint static_done (n : Z) (cs : list check) (req : fval) : bool :=
+  match cs with
+  | KDone :: _ => true
+  | [] | KDeep :: _ | KMayStop :: _ => false
+  | c :: tl => match exec n c req with Ok _ => static_done n tl req | _ => false end
   end.
 
 (* ------------------------------------------------------------------ pure predicates used by KPred *)
@@ -336,6 +346,20 @@ Definition dec_le_one := str_dec (fun d => d <=? P).        (* !d.GT(1) *)
 Definition dec_lt_one := str_dec (fun d => d <? P).         (* !d.GTE(1) *)
 Definition dec_unit := str_dec (fun d => (0 <=? d) && (d <=? P)).      (* parse, not negative, not > 1 *)
 Definition dec_unit_strict := str_dec (fun d => (0 <=? d) && (d <? P)).
+(* x/liquiditypool/types/pool_params.go ValidatePoolParams (raw decimals):
+   0 <= fee rate < 1, 1.0001 <= price ratio <= 1.5, -1 < base offset < 1 (both ends excluded) *)
+Definition MIN_PRICE_RATIO : Z := 1000100000000000000.
+Definition MAX_PRICE_RATIO : Z := 1500000000000000000.
+Definition pool_fee_ok (d : Z) : bool := (0 <=? d) && (d <? P).
+Definition pool_ratio_ok (d : Z) : bool := (MIN_PRICE_RATIO <=? d) && (d <=? MAX_PRICE_RATIO).
+Definition pool_offset_ok (d : Z) : bool := Z.abs d <? P.           (* !offset.Abs().GTE(1) *)
+Definition pool_offset_ok_closed (d : Z) : bool := (- P <=? d) && (d <=? P).   (* what a closed interval would accept *)
+Definition dec_pool_fee := str_dec pool_fee_ok.
+Definition dec_pool_ratio := str_dec pool_ratio_ok.
+Definition dec_pool_offset := str_dec pool_offset_ok.
+(* Pow(base, exponent): integer part of the exponent, converted to uint64 for LegacyDec.Power *)
+Definition pow_integer_part (exponent : Z) : Z := Z.quot exponent P.
+
 Definition num_positive (v : fval) : bool := match v with VNum z => 0 <? z | _ => false end.
 Definition num_nonzero (v : fval) : bool := match v with VNum z => negb (z =? 0) | _ => false end.
 Definition str_denom_ok (v : fval) : bool := match v with VStr s => si_denom s | _ => false end.
@@ -358,7 +382,7 @@ Local Open Scope string_scope.
 Local Open Scope list_scope.
 
 (* MsgUpdateParams of every module: authority parses, is the module authority, Params.Validate *)
-Definition upd (params : list check) : list check := [KAddr [0%nat]; KAuth [0%nat]] ++ params ++ [KDeep].
+Definition upd (params : list check) : list check := [KAddr [0%nat]; KAuth [0%nat]] ++ params ++ [KDone].
 Definition q0 : list check := [KReqNotNil; KDeep].         (* queries that only test req == nil *)
 
 Definition n0 := 0%nat. Definition n1 := 1%nat. Definition n2 := 2%nat. Definition n3 := 3%nat.
@@ -424,7 +448,8 @@ Definition specs (hf : hfixes) : list (string * bool * list check) := [
   ("liquiditypool.Msg.ClaimRewards", false, [KAddr [n0]; KPred [n1] len_nonzero; KDeep]);
   ("liquiditypool.Msg.CreatePool", false,
      [KAddr [n0]] ++ g hf FamPool (KPred [n1] str_denom_ok) ++ g hf FamPool (KPred [n2] str_denom_ok)
-     ++ [KPred [n3] dec_ok; KPred [n4] dec_ok; KPred [n5] dec_ok; KDeep]);
+     ++ [KPred [n3] dec_ok; KPred [n4] dec_ok; KPred [n5] dec_ok;
+         KPred [n3] dec_pool_fee; KPred [n4] dec_pool_ratio; KPred [n5] dec_pool_offset; KDone]);
   ("liquiditypool.Msg.CreatePosition", false,
      [KAddr [n0]]
      ++ g hf FamNilInt (KIntNotNil [n4; n1]) ++ g hf FamNilInt (KIntNotNil [n5; n1])
@@ -547,7 +572,7 @@ Definition is_known (s : sig) := match s with SUnknown => false | _ => true end.
 (* the field a check reads exists in the request type and has the kind the check expects *)
 Definition check_typed (sg : sig) (c : check) : bool :=
   match c with
-  | KReqNotNil | KAlwaysErr | KMayStop | KDeep => true
+  | KReqNotNil | KAlwaysErr | KMayStop | KDeep | KDone => true
   | KAddr p | KValAddr p | KAddrIfNonEmpty p | KMustAddr p | KAuth p | KShareDenomUse p
   | KStrIntOk p | KStrIntPositive p | KStrIntNonNeg p | KStrIsInt64 p | KStrInt64Use p | KStrIntNewCoin p => sig_is sg p is_str
   | KPred p _ => sig_is sg p is_known
